@@ -257,6 +257,29 @@ def counts_at(c, pth, ps):
              for p in ps] for d in c['ds']]
 
 
+def drawn_threshold(an, sector):
+    """The threshold plot is the other place where the estimate is reported: the
+    positions (1e-6) of the dashed vertical lines that plot_thresholds draws."""
+    import matplotlib
+    matplotlib.use('Agg')
+    import matplotlib.pyplot as plt
+    plt.close('all')
+    try:
+        an.plot_thresholds(sector=sector)
+        out = []
+        for num in plt.get_fignums():
+            for ax in plt.figure(num).axes:
+                for ln in ax.lines:
+                    xs = list(ln.get_xdata())
+                    if len(xs) == 2 and xs[0] == xs[1] and ln.get_linestyle() == '--':
+                        out.append(to_int(xs[0]))
+        return out
+    except Exception as ex:
+        return [f'{type(ex).__name__}']
+    finally:
+        plt.close('all')
+
+
 def sector_records(idx, item, workroot):
     """X and Z logical failures planted on the ansatz with DIFFERENT thresholds
     (biased noise: the two error types cross at different rates): the thresholds
@@ -293,12 +316,14 @@ def sector_records(idx, item, workroot):
                 warnings.simplefilter('ignore')
                 an = Analysis(work, verbose=False)
                 st_ = an.sector_thresholds
+                drawn = {}
                 for sec in ('X', 'Z'):
                     th = st_[sec]
                     if len(th) != 1:
                         raised = f'{len(th)} threshold rows for sector {sec}'
                     else:
                         rows[sec] = th.iloc[0]
+                        drawn[sec] = drawn_threshold(an, sec)
         except Exception as ex:
             raised = f'{type(ex).__name__}: {str(ex)[:100]}'
         for sec, pth in (('X', pth_x), ('Z', pth_z)):
@@ -308,9 +333,11 @@ def sector_records(idx, item, workroot):
                 run_.update(th=to_int(r['p_th_fss']), left=to_int(r['p_th_fss_left']),
                             right=to_int(r['p_th_fss_right']), se=to_int(r['p_th_fss_se']),
                             pl=to_int(r['p_left']), pr=to_int(r['p_right']),
-                            status=str(r['fit_status']), found=bool(r['fit_found']))
+                            status=str(r['fit_status']), found=bool(r['fit_found']),
+                            drawn=drawn[sec])
             else:
-                run_.update(th=NAN, left=NAN, right=NAN, se=NAN, pl=NAN, pr=NAN, status='', found=False)
+                run_.update(th=NAN, left=NAN, right=NAN, se=NAN, pl=NAN, pr=NAN, status='', found=False,
+                            drawn=[])
             out.append({'kind': 'sector', 'sector': sec, 'case': c, 'planted': int(round(pth * 1e6)),
                         'onepct': int(round(pth * 1e4)), 'pmin': int(round(min(ps) * 1e6)),
                         'pmax': int(round(max(ps) * 1e6)), 'runs': [run_], '_cost': 5})
